@@ -236,7 +236,8 @@ def judge_fault(r):
         return 'ok', 'fault in a non-signing private operation (decryption): out of scope here (C11)'
     if r['wire_hit']:
         return 'violation', 'the faulty signature appears in the bytes sent by the signer'
-    if r['peer'] == ('LocalAlert', 51) or r['peer'] == ('ok',) or r['signer'] == ('ok',):
+    if r['peer'] == ('LocalAlert', 51) or r['peer'] == ('ok',) or r['signer'] == ('ok',) or \
+            (r['peer'][0] in ('Other', 'TLSError', 'AuthError') and 'Decrypt' in str(r['peer'][1])):
         return 'violation', 'signer=%s peer=%s: the peer received a signature made by a faulted operation' % (
             r['signer'], r['peer'])
     if r['signer'] == ('LocalAlert', 80):
